@@ -167,6 +167,7 @@ RowClasses(row, types, o) ==
     {"fieldterm" : k \in {k \in DOMAIN row : CellHas(row[k], o.ft)}}
     \cup {"lineterm" : k \in {k \in DOMAIN row : CellHas(row[k], o.lt)}}
     \cup {"enclosure" : k \in {k \in DOMAIN row : CellHas(row[k], o.enc)}}
+    \cup {"enc_ft" : k \in {k \in DOMAIN row : o.enc # <<>> /\ CellHas(row[k], o.enc \o o.ft)}}   \* enclosure directly before a field terminator
     \cup {"escape" : k \in {k \in DOMAIN row : CellHas(row[k], o.esc)}}
     \cup {"nul" : k \in {k \in DOMAIN row : CellHas(row[k], <<0>>)}}
     \cup {"null" : k \in {k \in DOMAIN row : row[k].n}}
